@@ -118,6 +118,26 @@ def main():
                 f"def displayMoneyDp : Nat := {m2.group(1)}",
                 f"def displayMoneyHalfAway : Bool := {'true' if strat2 == 'MidpointAwayFromZero' else 'false'}"]
 
+    @group("pdf_round")
+    def _():
+        lib = read("crates/cgt-formatter-pdf/src/lib.rs")
+        typ = read("crates/cgt-formatter-pdf/src/templates/report.typ")
+        # figures reach the template as Typst's exact decimal type (round-half-away on decimals) …
+        exact = bool(re.search(r"fn decimal_to_value\(value: Decimal\) -> Result<Value, PdfError> \{\s*value\s*\.to_string\(\)\s*\.parse::<typst::foundations::Decimal>\(\)", lib))
+        if not exact and not re.search(r"fn decimal_to_value", lib):
+            raise Missing("cgt-formatter-pdf/src/lib.rs: decimal_to_value not found")
+        if re.search(r"\.to_f64\(\)|as f64", lib.split("#[cfg(test)]")[0]):
+            exact = False
+        # … and fmt-money rounds them to 2 digits with calc.round
+        m = re.search(r"#let fmt-money\(value\) = \{.*?fmt-fixed\(abs, digits: (\d+)\)", typ, re.S)
+        if not m or not re.search(r"#let fmt-fixed\(value, digits: 2\) = \{\s*let rounded = calc\.round\(value, digits: digits\)", typ):
+            raise Missing("report.typ: fmt-money / fmt-fixed anchors not found")
+        q = re.search(r"#let fmt-qty\(value\) = trim-zeros\(fmt-fixed\(value, digits: (\d+)\)\)", typ)
+        if not q:
+            raise Missing("report.typ: fmt-qty anchor not found")
+        return [f"def pdfMoneyExactDecimal : Bool := {'true' if exact else 'false'}",
+                f"def pdfMoneyDp : Nat := {m.group(1)}", f"def pdfQtyDp : Nat := {q.group(1)}"]
+
     @group("rsu")
     def _():
         aw = "crates/cgt-converter/src/schwab/awards.rs"
@@ -131,7 +151,7 @@ def main():
         old = open(OUT, encoding="utf-8").read()
     except OSError:
         pass
-    order = ["window", "taxyear", "mcp_year", "disposal_round", "exemptions", "money_round", "rsu"]
+    order = ["window", "taxyear", "mcp_year", "disposal_round", "exemptions", "money_round", "pdf_round", "rsu"]
     lines = []
     for gname in order:
         if gname in GROUPS:
